@@ -165,6 +165,23 @@ Theorem C04_rollforward_ntc : forall t b tip trail,
             C22.Model.unwrap_ntc (enc m ++ trail) = Some (t, enc b, tip).
 Proof. exact C22.Props.C22_ntc. Qed.
 
+(* Decoder limits.  The translator reads the limits of every cbor.Decode*
+   entry point from cbor/decode.go (Gen.dec_limits) and the entry point each
+   protocol's NewMsgFromCbor applies to the message body (Gen.decode_mode).
+   Every protocol decodes with the documented limits of the message decoder:
+   at least 256 nesting levels, 10,000,000 array elements and map pairs - so
+   that legal large messages (ledger-state query results) decode.  A change of
+   the decode mode of one protocol changes Gen.v and breaks this obligation. *)
+Definition mode_ok (pm : string * string) : bool :=
+  match find (fun e => String.eqb (fst e) (snd pm)) dec_limits with
+  | Some (_, (n, a, m)) => (256 <=? n) && (10000000 <=? a) && (10000000 <=? m)
+  | None => false
+  end.
+Theorem C04_limits_ok : forall pm, In pm decode_mode -> mode_ok pm = true.
+Proof. apply forallb_forall. vm_compute. reflexivity. Qed.
+Example C04_limits_nonvacuous : (15 <=? N.of_nat (length decode_mode)) = true /\ mode_ok ("x"%string, "DecodeStrict"%string) = false.
+Proof. split; vm_compute; reflexivity. Qed.
+
 (* non-vacuity for the hand-encoded types *)
 Example C04_txsubmission_ex :
   let v := VStruct [VUInt 3; VList [VStruct [VUInt 6; VBytes [128]]]] in
